@@ -177,8 +177,8 @@ def evaluate(case):
 
 
 def case_key(case):
-    return "%s|%s|%s|%s|%s|%s" % (case["scope"], case["schema"], case["pair"], case["kind"], case.get("route", "string"),
-                                  T.render_doc(case["doc"]))
+    return "%s|%s|%s|%s|%s|%s%s" % (case["scope"], case["schema"], case["pair"], case["kind"], case.get("route", "string"),
+                                    T.render_doc(case["doc"]), " removed=2" if case["doc"].get("ns_all") else "")
 
 
 # ----------------------------------------------------------------------------- scopes
@@ -284,11 +284,15 @@ def namespace_cases(scope):
                     leaves = pool[:nl] if pick == "first" else pool[-nl:]
                     leaves = list(reversed(leaves)) if order == "asis" else leaves
                     root = H.shape_to_node(s, leaves, lengths=lambda i, leaf, r: (None if r else 0.25 * (i + 1)), internal_labels=True)
-                    doc = {"ns": ns, "trees": [{"rooted": False, "root": root, "weight": None}]}
-                    for schema in SCHEMAS:
-                        for pair in (["default", "translate"] if schema == "nexus" else ["default"]):
-                            for kind in ("tree", "list"):
-                                yield dict(scope=scope, schema=schema, pair=pair, kind=kind, route="string", doc=doc)
+                    for removed in (False, True):
+                        doc = {"ns": ns, "trees": [{"rooted": False, "root": root, "weight": None}]}
+                        if removed:
+                            # two taxa created and removed again (first and middle position)
+                            doc["ns_all"] = ["gone0"] + ns[: len(ns) // 2] + ["gone1"] + ns[len(ns) // 2:]
+                        for schema in SCHEMAS:
+                            for pair in (["default", "translate"] if schema == "nexus" else ["default"]):
+                                for kind in ("tree", "list"):
+                                    yield dict(scope=scope, schema=schema, pair=pair, kind=kind, route="string", doc=doc)
 
 
 def internal_taxa_cases(scope):
@@ -456,7 +460,7 @@ def t2(ctx):
     # -- namespaces larger than / ordered differently from the leaf set
     sc = "roundtrip@namespaces"
     ctx.scope(sc, rule="6 shapes x namespace of size n..n+2 (taxa that are on no tree) x order {as is, reversed, rotated} x leaves taken "
-                       "from the first/last labels x {Tree, TreeList} x formats (NEXUS also with TRANSLATE); non-trivial = namespace "
+                       "from the first/last labels x {no taxon removed, two taxa created and removed again} x {Tree, TreeList} x formats (NEXUS also with TRANSLATE); non-trivial = namespace "
                        "differs from the leaf sequence", exhaustive=True)
     _run(ctx, sc, namespace_cases(sc), lambda c: c["doc"]["ns"] != T.labels_used(c["doc"]))
 
